@@ -107,7 +107,9 @@ theorem cr_pushToBlock2 (P : Params) (st : St) (p : Pkt) {st' : St} {b : Bool}
       · split at h
         · simp at h
         · simp at h; rw [← h.1]; split
-          · exact cr_complete _
+          · split
+            · exact cr_complete _
+            · exact cr_error _ _
           · exact CR.refl _
       · split at h
         · simp at h; rw [← h.1]; exact CR.refl _
@@ -281,9 +283,9 @@ theorem cb_push (P : Params) (M : Nat) (st : St) (p : Pkt) {st' : St}
                 have r := (cr_pushToBlock _ _ _ heq).trans (cr_error _ false)
                 exact ⟨c3.1.cr r, r.maxSize.trans m3⟩
 
-theorem cb_attachFdt (P : Params) (M : Nat) (st : St) (fdtId : Nat) (file : Option FileEntry) {st' : St} {b : Bool}
-    (hc : CB M st) (h : attachFdt P st fdtId file = .ok (st', b)) : CB M st' ∧ st'.maxSize = st.maxSize := by
-  unfold attachFdt at h
+theorem cb_attachFdtOld (P : Params) (M : Nat) (st : St) (fdtId : Nat) (file : Option FileEntry) {st' : St} {b : Bool}
+    (hc : CB M st) (h : attachFdtOld P st fdtId file = .ok (st', b)) : CB M st' ∧ st'.maxSize = st.maxSize := by
+  unfold attachFdtOld attachCore at h
   split at h
   · simp at h; rw [← h.1]; exact ⟨hc, rfl⟩
   · split at h
@@ -323,6 +325,15 @@ theorem cb_attachFdt (P : Params) (M : Nat) (st : St) (fdtId : Nat) (file : Opti
                   simp at h; rw [← h.1]
                   have c6 := cb_pushFromCache P M _ ((c4.1.cr r5).cr r6) h6
                   exact ⟨c6.1, ((c6.2.trans r6.maxSize).trans r5.maxSize).trans (c4.2.trans r3.maxSize)⟩
+
+
+theorem cb_reset {M : Nat} {st : St} (hc : CB M st) : CB M (resetOti st) := ⟨hc.acc, hc.bound⟩
+
+theorem cb_attachFdt (P : Params) (M : Nat) (st : St) (fdtId : Nat) (file : Option FileEntry) {st' : St} {b : Bool}
+    (hc : CB M st) (h : attachFdt P st fdtId file = .ok (st', b)) : CB M st' ∧ st'.maxSize = st.maxSize := by
+  rcases attachFdt_cases h with h0 | ⟨f, rfl, _, _, h1⟩
+  · exact cb_attachFdtOld P M st fdtId file hc h0
+  · exact cb_attachFdtOld P M (resetOti st) fdtId _ (cb_reset hc) h1
 
 /-- the datagrams of a history are at most `M` bytes long -/
 def OpsLe (M : Nat) (ops : List Op) : Prop := ∀ p, Op.push p ∈ ops → p.dataLen ≤ M
